@@ -276,25 +276,55 @@ def core_validator_choices(n):
     return out
 
 
+def _renamings(n, nreq):
+    """field renamings that keep the kinds: permutations of the required fields x permutations of the defaulted fields"""
+    names = FIELD_NAMES[:n]
+    out = []
+    for p1 in itertools.permutations(names[:nreq]):
+        for p2 in itertools.permutations(names[nreq:]):
+            out.append(dict(zip(names, p1 + p2)))
+    return out
+
+
+def _vs_key(vs):
+    return tuple((deps, disc or "") for deps, disc in vs)
+
+
+def is_canonical(n, nreq, vs, renamings):
+    """is this validator tuple the least one among its images under kind-preserving field renamings?"""
+    key = _vs_key(vs)
+    for r in renamings[1:]:
+        img = tuple((tuple(sorted(r[d] for d in deps)), r[disc] if disc else "") for deps, disc in vs)
+        if img < key:
+            return False
+    return True
+
+
 def core_shapes(max_fields=3, max_validators=3):
-    """every core shape: n fields (k required first, then defaulted), m validators each with a non-empty dependency set and
-    an optional single-field discard.  Yields (index, shape) with shape = (n, nreq, ((deps, discard), ...))."""
+    """every core shape up to renaming of fields of the same kind: n fields (k required first, then defaulted), m validators each
+    with a non-empty dependency set and an optional single-field discard.
+    Yields (index, shape) with shape = (n, nreq, ((deps, discard), ...))."""
     i = 0
     for n in range(1, max_fields + 1):
         choices = core_validator_choices(n)
         for nreq in range(n + 1):
+            ren = _renamings(n, nreq)
             for m in range(1, max_validators + 1):
                 for vs in itertools.product(choices, repeat=m):
+                    if len(ren) > 1 and not is_canonical(n, nreq, vs, ren):
+                        continue
                     yield i, (n, nreq, vs)
                     i += 1
 
 
+_core_count = {}
+
+
 def core_count(max_fields=3, max_validators=3):
-    total = 0
-    for n in range(1, max_fields + 1):
-        c = (2 ** n - 1) * (n + 1)
-        total += (n + 1) * sum(c ** m for m in range(1, max_validators + 1))
-    return total
+    key = (max_fields, max_validators)
+    if key not in _core_count:
+        _core_count[key] = sum(1 for _ in core_shapes(max_fields, max_validators))
+    return _core_count[key]
 
 
 def plain_spec(shape, name):
